@@ -18,6 +18,8 @@ type c17Case struct {
 	State  string `json:"state"`
 	Method string `json:"method"`
 	Args   string `json:"args"`
+	// Env: the package-level default loggers had been replaced by a live logger beforehand
+	Env bool `json:"package_default_loggers_live,omitempty"`
 }
 
 // receivers in a given state; every call gets a fresh one
@@ -356,7 +358,7 @@ func c17Funcs(c *Ctx) int {
 				if strings.Contains(p, "harness/gen.go") {
 					continue
 				}
-				c.Violation("panic:func:"+name, fmt.Sprintf("%s(%s) panicked: %s", name, t.Desc, p), c17Case{"func", "", name, t.Desc}, len(t.Desc))
+				c.Violation("panic:func:"+name, fmt.Sprintf("%s(%s) panicked: %s", name, t.Desc, p), c17Case{"func", "", name, t.Desc, false}, len(t.Desc))
 				continue
 			}
 			// an inert argument (zero, freed, nil pointer, pointer to a zero value) never converts
@@ -376,7 +378,7 @@ func c17Funcs(c *Ctx) int {
 						zero = h.IsZero()
 					}
 					if res[1].Bool() || !zero {
-						c.Violation("inert-argument-converted:"+name, fmt.Sprintf("%s(%s) = (zero=%v, %v), want (zero, false)", name, t.Desc, zero, res[1].Bool()), c17Case{"func", "", name, t.Desc}, len(t.Desc))
+						c.Violation("inert-argument-converted:"+name, fmt.Sprintf("%s(%s) = (zero=%v, %v), want (zero, false)", name, t.Desc, zero, res[1].Bool()), c17Case{"func", "", name, t.Desc, false}, len(t.Desc))
 					}
 				}
 			}
@@ -384,12 +386,12 @@ func c17Funcs(c *Ctx) int {
 			for _, r := range res {
 				if r.Type() == stackType || r.Type() == condType {
 					if fnm, p := followUps(r.Interface()); p != "" {
-						c.Violation("panic-after:func:"+name+":"+fnm, fmt.Sprintf("%s(%s) returned a value on which %s panicked: %s", name, t.Desc, fnm, p), c17Case{"func", "", name, t.Desc}, len(t.Desc))
+						c.Violation("panic-after:func:"+name+":"+fnm, fmt.Sprintf("%s(%s) returned a value on which %s panicked: %s", name, t.Desc, fnm, p), c17Case{"func", "", name, t.Desc, false}, len(t.Desc))
 					}
 				}
 			}
 			if msg := c17Canaries(); msg != "" {
-				c.Violation("live-instances-no-longer-recognised:func:"+name, fmt.Sprintf("after %s(%s): %s", name, t.Desc, msg), c17Case{"func", "", name, t.Desc}, len(t.Desc))
+				c.Violation("live-instances-no-longer-recognised:func:"+name, fmt.Sprintf("after %s(%s): %s", name, t.Desc, msg), c17Case{"func", "", name, t.Desc, false}, len(t.Desc))
 			}
 			c.Nontrivial(name + t.Desc)
 		}
@@ -516,6 +518,43 @@ func c17FreeReset(c *Ctx) int {
 			}
 		}
 	}
+	// Free at every length (a few elements, past eight, past sixteen ... past the constructor's reservation):
+	// the handle is zero afterwards, an earlier copy of it still holds everything
+	for ki, kind := range kindNames {
+		for _, ln := range []int{0, 1, 5, 8, 9, 10, 16, 17, 33, 64, 65, 130, 1023, 1024, 1500} {
+			for variant := 0; variant < 3; variant++ {
+				n++
+				c.Transitions.Add(1)
+				s := newStackKind(kind)
+				if variant == 2 {
+					s = newStackKind(kind, ln+10)
+				}
+				if variant > 0 {
+					decorate(s).SetMutex().SetPushPolicy(pp)
+				}
+				vals := make([]any, ln)
+				for i := range vals {
+					if i%7 != 3 {
+						vals[i] = i + ki
+					}
+				}
+				s.Push(vals...)
+				cp := s
+				var err error
+				desc := fmt.Sprintf("Free on %s holding %d elements (variant %d: 1 = configured, 2 = with capacity)", kind, ln, variant)
+				if p := noPanic(func() { err = s.Free() }); p != "" {
+					c.Violation("panic:Free", desc+" panicked: "+p, nil, ln)
+					continue
+				}
+				if err != nil || !s.IsZero() || s.IsInit() {
+					c.Violation("Free:not-zero", fmt.Sprintf("%s returned %v, IsZero=%v IsInit=%v Len=%d", desc, err, s.IsZero(), s.IsInit(), s.Len()), nil, ln)
+				}
+				if cp.Len() != ln || !cp.IsInit() {
+					c.Violation("Free:earlier-copy-changed", fmt.Sprintf("%s: an earlier copy of the handle now has Len %d (IsInit %v), want %d", desc, cp.Len(), cp.IsInit(), ln), nil, ln)
+				}
+			}
+		}
+	}
 	// Free drops the handle it is called on - nothing else: an earlier copy of the handle (another
 	// variable, the element stored in a Stack, a Condition's expression) is a live instance as before
 	for _, mk := range []func() (free func() error, copyOf any, holder stackage.Stack, what string){
@@ -588,7 +627,7 @@ func init() {
 			for _, me := range methodsOf(rv.sample, rv.name) {
 				for _, t := range argTuples(me.Type, c17Pick(me.Name), 300) {
 					for _, st := range rv.states {
-						jobs = append(jobs, job{c17Case{rv.name, st, me.Name, t.Desc}, t.Args})
+						jobs = append(jobs, job{c17Case{rv.name, st, me.Name, t.Desc, false}, t.Args})
 					}
 				}
 			}
@@ -603,6 +642,16 @@ func init() {
 		}
 		parallelFor(len(jobs), func(i int) { c17Run(c, jobs[i].cs, jobs[i].args, diff, true) })
 		c.Bound["calls_watched_by_bystanders"] = nb
+		// the same calls once more in another environment: somebody has replaced the package's default
+		// loggers by a live one in the meantime (a zero value has no logger of its own, whatever the defaults)
+		c11Env(true)
+		parallelFor(len(jobs), func(i int) {
+			cs := jobs[i].cs
+			cs.Env = true
+			c17Run(c, cs, jobs[i].args, nil, false)
+		})
+		c11Env(false)
+		c.Bound["calls_repeated_with_live_package_default_loggers"] = len(jobs)
 		// differential: zero-valued and freed instances answer identically
 		for k, m := range diff.res {
 			z, okz := m["zero"]
@@ -632,6 +681,10 @@ func init() {
 	}, Replay: func(c *Ctx, raw json.RawMessage) {
 		var cs c17Case
 		json.Unmarshal(raw, &cs)
+		if cs.Env {
+			c11Env(true)
+			defer c11Env(false)
+		}
 		var sample any = stackage.Stack{}
 		if cs.Recv == "Condition" {
 			sample = stackage.Condition{}
